@@ -271,7 +271,7 @@ def case_container(seed):
     if VIOL and msg is None:
         msg = VIOL[0]
     del VIOL[:]
-    return term, dict(prog=prog, assigned={k: repr(v) for k, v in assigned.items()}, log1=log1[:12], log2=log2[:12]), msg
+    return term, dict(kind="container", seed=seed, prog=prog, assigned={k: repr(v) for k, v in assigned.items()}, log1=log1[:12], log2=log2[:12]), msg
 
 
 # --------------------------------------------------------------------------- part B
@@ -300,7 +300,7 @@ def case_discovery(seed, allow, tune, predeclare):
             continue
     else:
         return None
-    builds = [0]
+    builds = [0]; predeclare0 = predeclare
 
     def build(hp):
         builds[0] += 1
@@ -351,7 +351,7 @@ def case_discovery(seed, allow, tune, predeclare):
     if status == "done" and not allow and set(all_decls(prog)) - {h.name for h in pre.space}:
         new_reachable = True
         msg = msg or ("allow-new-entries", "allow_new_entries=False but a build declaring new entries was accepted")
-    return term, dict(prog=prog, allow=allow, tune=tune, predeclare=predeclare, status=status, builds=builds[0], space=names), msg
+    return term, dict(kind="discovery", seed=seed, prog=prog, allow=allow, tune=tune, predeclare=predeclare0, status=status, builds=builds[0], space=names), msg
 
 
 HEADER = """From stdpp Require Import gmap list.
@@ -393,16 +393,20 @@ def run(ctx):
     terms = []; infos = []; failures = []
     stats = dict(container=0, discovery=0, statuses={}, flags={}, diffs=0)
     seen = set(); distinct = 0
-    for i in range(n):
-        seed = ctx.rng.randint(0, 2 ** 40)
-        if i % 3 != 2:
+    import glob, json
+    corpus = [json.load(open(f)) for f in sorted(glob.glob("/verif/corpus/C13/*.json"))]
+    stats["corpus_cases"] = len(corpus)
+    for i in range(-len(corpus), n):
+        c = corpus[i + len(corpus)] if i < 0 else None
+        seed = c["seed"] if c else ctx.rng.randint(0, 2 ** 40)
+        if (c["kind"] == "container") if c else (i % 3 != 2):
             term, info, msg = case_container(seed)
             stats["container"] += 1
             if msg:
                 failures.append(Failure("violation", "C13/parents-first" if "registered before" in msg else "C13/lookup", msg, {"program": info["prog"], "assigned": info["assigned"], "seed": seed}))
         else:
-            allow, tune = ctx.rng.choice([(True, True), (True, True), (True, False), (False, True), (False, False)])
-            r = case_discovery(seed, allow, tune, ctx.rng.random() < 0.3)
+            allow, tune = (c["allow"], c["tune"]) if c else ctx.rng.choice([(True, True), (True, True), (True, False), (False, True), (False, False)])
+            r = case_discovery(seed, allow, tune, c["predeclare"] if c else ctx.rng.random() < 0.3)
             if r is None:
                 continue
             term, info, msg = r
